@@ -11,3 +11,5 @@ for id in "$@"; do
 done
 git reset -q --hard HEAD; git clean -fdq -- src tests build.rs
 git status --short | grep -v '^??' | head
+# leave no simulator binary behind that was built against the patched tree
+(cd /verif/sim && RUSTFLAGS="--cfg httparse_verif --cfg hp_rt" cargo build --offline --release >/dev/null 2>&1)
